@@ -344,7 +344,24 @@ def useSlice (comps : List Comp) : Bool :=
 def sliceEntriesOf (comps : List Comp) : List (Option SliceEntry) :=
   (slicedOf comps ++ scalarsOf comps).map (fun p => entryOf p.1 p.2)
 
-/-- `Converter._translate_subscript_expr`. -/
+/-- Components translated to `Gather` when the Slice path is *not* taken: the tensor-valued ones
+and the (at most one) Python int. -/
+def gatheredOf (comps : List Comp) : List (Comp × Nat) :=
+  comps.zipIdx.filter (fun p => p.1.kind == .nonScalar || p.1.kind == .scalar)
+
+/-- The axis attribute of a `Gather` for source axis `j`: the axes in `removed` (squeezed before the
+Gather chain starts) that lie below `j` have already disappeared from the intermediate result
+(`axis - sum(1 for a in removed_axes if a < axis)`). -/
+def gatherAxis (removed : List Nat) (j : Nat) : Nat :=
+  j - (removed.filter (fun a => decide (a < j))).length
+
+/-- The trailing Gather chain.  `items` come in ascending axis order; the code sorts them with
+`sort(key=axis, reverse=True)`, i.e. (axes being distinct) highest axis first, so that a rank-0
+Gather never renumbers an axis that is still to be indexed. -/
+def gatherChain (removed : List Nat) (items : List (Comp × Nat)) : Plan :=
+  items.reverse.filterMap (fun p => gatherOp (gatherAxis removed p.2) p.1)
+
+/-- `Converter._translate_subscript_expr` (after /repo commit e7769b9, the repair of finding D7). -/
 def planGraph (comps : List Comp) : Except Err Plan :=
   -- `A[:]`, `A[:, :]`: edge case, no index specified: one Identity node.  (Before /repo commit 35a0ff1
   -- the code passed the *name* (a `str`) to `_emit1` and decoration died with AttributeError.)
@@ -353,12 +370,16 @@ def planGraph (comps : List Comp) : Except Err Plan :=
   else if useSlice comps then
     if (sliceEntriesOf comps).any Option.isNone then .error .refused
     else
+      -- `removed_axes = list(squeezed_axes)`
       let squeezed := (scalarsOf comps).map (·.2)
       .ok ([PlanOp.slice ((sliceEntriesOf comps).filterMap id)]
             ++ (if squeezed.isEmpty then [] else [PlanOp.squeeze squeezed])
-            ++ (nonScalarsOf comps).filterMap (fun p => gatherOp p.2 p.1))
+            ++ gatherChain squeezed (nonScalarsOf comps))
   else
-    .ok ((nonScalarsOf comps ++ scalarsOf comps).filterMap (fun p => gatherOp p.2 p.1))
+    -- `non_scalar_indices.extend(scalar_indices)` then the stable descending sort by axis: since the
+    -- axes are distinct this is "all Gather-translated components, highest axis first";
+    -- `removed_axes` is empty.  (The plan correspondence re-checks the order on every run.)
+    .ok (gatherChain [] (gatheredOf comps))
 
 /-! ### Eager mode (`Tensor.__getitem__`), in the code's own pieces -/
 
@@ -396,21 +417,25 @@ def eVecsOf (comps : List Comp) : List (Comp × Nat) := comps.zipIdx.filter (fun
 def eagerEntriesOf (comps : List Comp) (shape : List Nat) : List SliceEntry :=
   (eSlicedOf comps ++ eScalarsOf comps).filterMap (fun p => entryOfEager p.1 p.2 (shape.getD p.2 0))
 
-/-- `Tensor.__getitem__` for a tensor of the given shape.  Python ints are promoted to rank-0
-tensors first, so `int` and `tScalar` are the same thing here. -/
+/-- `Tensor.__getitem__` for a tensor of the given shape (after /repo commit e7769b9).  Python ints
+are promoted to rank-0 tensors first, so `int` and `tScalar` are the same thing here.  The 1-D
+indices are gathered last, in ascending axis order, each with
+`axis - sum(1 for a in to_squeeze if a < axis)`: the rank-0-indexed axes are gone by then
+(a 1-D Gather keeps its axis, so the order among them does not matter). -/
 def planEager (comps : List Comp) (shape : List Nat) : Except Err Plan :=
   if comps.length > shape.length then .error .valueError
   else if (eSlicedOf comps).isEmpty && (eScalarsOf comps).isEmpty && (eVecsOf comps).isEmpty then
     .ok [.identity]
   else
+    let toSqueeze := (eScalarsOf comps).map (·.2)
     let pre : Plan :=
       if (eSlicedOf comps).isEmpty && (eScalarsOf comps).length == 1 then
         (eScalarsOf comps).map (fun p => .gatherScalar p.2 p.1.scalarVal)
       else if !(eSlicedOf comps).isEmpty || !(eScalarsOf comps).isEmpty then
         [.slice (eagerEntriesOf comps shape)]
-        ++ (if (eScalarsOf comps).isEmpty then [] else [.npSqueeze ((eScalarsOf comps).map (·.2))])
+        ++ (if (eScalarsOf comps).isEmpty then [] else [.npSqueeze toSqueeze])
       else []
-    .ok (pre ++ (eVecsOf comps).filterMap (fun p => gatherOp p.2 p.1))
+    .ok (pre ++ (eVecsOf comps).filterMap (fun p => gatherOp (gatherAxis toSqueeze p.2) p.1))
 
 /-- Per-axis effect of eager mode's Slice(+squeeze) path on an axis of the original tensor. -/
 def eagerAxisSlicePath (c : Comp) (srcs : List Nat) : Except Err AxisMap :=
@@ -430,9 +455,11 @@ def eagerAxisSlicePath (c : Comp) (srcs : List Nat) : Except Err AxisMap :=
 
 deriving instance DecidableEq for Except
 
-/-- Per-axis effect of the converter's Slice(+Squeeze) path on a constant component: a slice
-becomes an ONNX slice with `convBounds`, a Python int `i` becomes `i:i+1:1` followed by Squeeze
-(which fails unless exactly one position was selected). -/
+/-- Per-axis effect of the converter's Slice(+Squeeze) path on a component it handles: a slice
+becomes an ONNX slice with `convBounds` (with a tensor-valued step the direction is unknown at
+translation time, so both bounds must be written out and are passed as they are; otherwise the
+form is refused), a Python int `i` becomes `i:i+1:1` followed by Squeeze (which fails unless
+exactly one position was selected). -/
 def graphAxisSlicePath (c : Comp) (srcs : List Nat) : Except Err AxisMap :=
   match c with
   | .full => .ok (.pick srcs)
@@ -440,7 +467,11 @@ def graphAxisSlicePath (c : Comp) (srcs : List Nat) : Except Err AxisMap :=
     if lo = .none ∧ hi = .none ∧ st = .none then .ok (.pick srcs)  -- "::" is a no-op (kind `skip`)
     else
     (match st with
-     | .dyn _ => .error .refused
+     | .dyn s =>
+       (match lo.val?, hi.val? with
+        | some l, some h =>
+          if s == 0 then .error .valueError else .ok (.pick (onnxSliceList srcs l h s))
+        | _, _ => .error .refused)
      | _ =>
        let step := (st.val?).getD 1
        if step == 0 then .error .valueError
